@@ -12,30 +12,35 @@ namespace SigV4.C07
 
 /-- The comparison decides equality. -/
 theorem ctEq_correct (a b : Bytes) : (ctEq a b).1 = true ↔ a = b := by
-  sorry
+  unfold ctEq
+  by_cases h : a.length = b.length
+  · have := ctFold_fst_eq_zero a b 0 h
+    simp only [h, ne_eq, not_true_eq_false, if_false, beq_iff_eq, this, true_and]
+  · have hne : a ≠ b := fun e => h (by rw [e])
+    simp [h, hne]
 
 /-- Its step trace depends only on the two lengths, never on the contents. -/
 theorem ctEq_trace_length_only (a b a' b' : Bytes) (ha : a.length = a'.length) (hb : b.length = b'.length) :
     (ctEq a b).2 = (ctEq a' b').2 := by
-  sorry
+  rw [ctEq_snd, ctEq_snd, ha, hb]
 
 /-- Exact trace: one length test, one xor-or per index, one reduction. -/
 theorem ctEq_trace (a b : Bytes) (h : a.length = b.length) :
     (ctEq a b).2 = Step.lenCheck :: List.replicate a.length Step.xorOr ++ [Step.reduce] := by
-  sorry
+  rw [ctEq_snd]; simp [h]
 
 /-- Contrast: an early-exit comparison's trace reveals the first differing index, so the step
 semantics is able to tell the two kinds of comparison apart (the theorem above is not vacuous). -/
 theorem earlyExit_trace_leaks (pre a b : Bytes) (x y : UInt8) (hxy : x ≠ y) :
     (earlyExitEq (pre ++ x :: a) (pre ++ y :: b)).2.length = pre.length + 1 := by
-  sorry
+  exact earlyExitEq_prefix pre a b x y hxy
 
 /-- For a fixed request and key, refusing a wrong signature of the correct length takes the same
 comparison steps whichever of its characters are wrong. -/
 theorem refusal_trace_independent_of_position (expected s s' : Bytes)
     (hs : s.length = expected.length) (hs' : s'.length = expected.length) :
     (ctEq s expected).2 = (ctEq s' expected).2 := by
-  sorry
+  rw [ctEq_snd, ctEq_snd, hs, hs']
 
 example : (ctEq b!"abcd" b!"abcx").2 = (ctEq b!"xbcd" b!"abcx").2 := by decide
 example : (earlyExitEq b!"abcd" b!"abcx").2.length ≠ (earlyExitEq b!"xbcd" b!"abcx").2.length := by decide
